@@ -425,6 +425,24 @@ where
             }
         }
     }
+    // one more FRI layer than the options imply (a copy of the last one), layer count byte updated
+    {
+        let fb = orig.fri_proof.to_bytes();
+        let lay = crate::frih::layout(&fb);
+        if let Some(&(vat, _, pat, pl)) = lay.layers.last() {
+            if fb[0] < 255 {
+                let mut b = vec![fb[0] + 1];
+                b.extend_from_slice(&fb[1..pat + pl]);
+                b.extend_from_slice(&fb[vat - 4..pat + pl]);
+                b.extend_from_slice(&fb[pat + pl..]);
+                if let Ok(fp) = winter_fri::FriProof::read_from_bytes(&b) {
+                    let mut p = orig.clone();
+                    p.fri_proof = fp;
+                    judge::<B, E, H>(cx, "field:fri-extra-layer", &p.to_bytes());
+                }
+            }
+        }
+    }
     // FRI partition exponent
     {
         let mut b = cx.h.bytes.clone();
@@ -459,7 +477,7 @@ where
 
 pub fn run(args: &Args) {
     let mut rep = Report::new("C04", "c04",
-        "per honest GenAir proof (3 fields, 3 hashers, all 3 extensions, main-only and auxiliary, partitions, grinding): every bit of the context area, of each component's first 3 bytes and of the tail plus random bit flips (thorough: EVERY bit of each proof), byte substitutions {0,1,7f,80,ff}, truncation at every offset, trailing bytes, one byte inserted / deleted at and just inside every component boundary, and field-level edits with consistent length prefixes (metadata zeros appended / byte dropped / bit, partition options, constraint count, unique-query count, nonce, an unused node appended to an opening, swapped node vectors, FRI partition exponent); each mutated string: decode error, or rejected under OptionSet([original]) and under MinConjecturedSecurity(0), or parsed contents (context, unique-query count, commitment digests, query values and openings, OOD frame, FRI layers / remainder / partitions, nonce) equal to the original's; evaluation = one mutated string; distinct = proofs");
+        "per honest GenAir proof (3 fields, 3 hashers, all 3 extensions, main-only and auxiliary, partitions, grinding): every bit of the context area, of each component's first 3 bytes and of the tail plus random bit flips (thorough: EVERY bit of each proof), byte substitutions {0,1,7f,80,ff}, truncation at every offset, trailing bytes, one byte inserted / deleted at and just inside every component boundary, and field-level edits with consistent length prefixes (metadata zeros appended / byte dropped / bit, partition options, constraint count, unique-query count, nonce, an unused node appended to an opening, swapped node vectors, unique-query count + 1 together with one more (copied / arbitrary) row in every Queries value vector, one more row in a FRI layer's query values, one more FRI layer, FRI partition exponent); each mutated string: decode error, or rejected under OptionSet([original]) and under MinConjecturedSecurity(0), or parsed contents (context, unique-query count, commitment digests, query values and openings, OOD frame, FRI layers / remainder / partitions, nonce) equal to the original's; evaluation = one mutated string; distinct = proofs");
     let seed = args.seed();
     let thorough = args.thorough();
     let budget = args.u64("budget", if thorough { 6000 } else { 1200 }) as usize;
